@@ -239,7 +239,7 @@ class C14(Prop):
         connection bytes (vlib/c14_helpers.py, same oracle inside the target) runs here too: a failing spec it finds is
         handed to the runner with the enumerated cases (-> VIOLATION + replay file); a clean campaign adds nothing and its
         statistics are appended to ``rule`` (the evidence key exhaustive_subdomain describes the truncations only)."""
-        out = self.truncations()
+        out = self.truncations() + self.single_mutations()
         if tier == 'thorough' and not os.environ.get('C14_NO_FUZZ'):
             out = out + self.campaign()
         return out
@@ -300,6 +300,21 @@ class C14(Prop):
             if f['clause'] not in seen:
                 seen.add(f['clause'])
                 out.append(f['spec'])
+        return out
+
+    def single_mutations(self):
+        """Every entry of the hostile value lists, applied alone to a plain request (one read, then disconnect): the lists
+        are short, so the quick tier visits each entry on every run instead of leaving it to the draw."""
+        out = []
+        plans = [('rl_method', len(H.BAD_METHODS), 0, 0), ('rl_version', len(H.BAD_VERSIONS), 0, 0), ('h_badname', len(H.BAD_HNAMES), 0, 0),
+                 ('cl_value', len(H.BAD_CL), 3, 2), ('cl_respell', 9, 3, 2), ('cl_value', len(H.BAD_CL), 0, 0), ('cl_respell', 9, 0, 0),
+                 ('ch_size', len(H.BAD_CHUNK), 3, 4), ('ch_respell', 9, 3, 4), ('h_te', len(H.BAD_TE), 3, 4)]
+        for op, n, m, b in plans:
+            for a in range(n):
+                for bb in ((0, 1) if op in ('h_badname', 'cl_value', 'cl_respell', 'ch_size', 'ch_respell') else (0,)):
+                    out.append({'base': {'m': m, 't': 0, 'v': 0, 'h': [], 'b': b, 'c': 0, 'p': 0, 'x': 0, 'hf': 0},
+                                'muts': [[op, a if op != 'h_badname' else bb, bb if op != 'h_badname' else a]],
+                                'cuts': [], 'bytewise': False, 'dc': -1, 'dcq': False, 'pre': False, 'psplit': False, 'hicut': False})
         return out
 
     def truncations(self):
